@@ -229,12 +229,14 @@ class FuncGen:
             self.stat("mem_arith")
         elif k == 15 and self.o["mem"]:
             # address arithmetic chains (combine / addr re-association)
-            c1, c2 = r.choice([1, 2, 3, 4, 8, 65, 130]), r.choice([1, 2, 4, 8])
-            self.emit("and", "t0", self.ireg(), 3)
+            c1, c2 = r.choice([1, 2, 3, 4, 8, 32, 64, 65, 128, 130]), r.choice([1, 2, 4, 8])
+            prod = c1 * c2
+            mask = 3 if 3 * prod + 8 <= 448 else 1 if prod + 8 <= 448 else 0
+            self.emit("and", "t0", self.ireg(), mask)
             self.emit("mul", "t1", "t0", c1)
             self.emit("mul", "t1", "t1", c2)
             self.emit("add", "t1", "t1", "buf")
-            lim = 3 * c1 * c2
+            lim = mask * prod
             if lim + 8 <= 448:
                 self.emit("mov", d, ("mem", r.choice(MEMT), r.below(448 - lim - 8 + 1), "t1", None, 1)); self.stat("addr_chain")
         elif k in (16, 17) and self.o["mem"] and self.o["alloca"]:
